@@ -765,6 +765,20 @@ def run_r1d(ctx, u):
                     ctx.check(rej, "sub.empty_rejected", L=L, region=r, call="1d:" + nm, pixels=(p, p), returned=lambda: as_tuple(what))
             rej, what = rejected(lambda: R.front_region_from(pixels_from_end=0))
             ctx.check(rej, "sub.empty_rejected", L=L, region=r, call="1d:front_from_end", pixels=0, returned=lambda: as_tuple(what))
+            # masked 1-D arrays, stored slim (the default) or native: the region counts native pixels, so every unmasked pixel of the
+            # region arrives in place with its value (what masked pixels carry is not claimed)
+            for mk_i, m1 in enumerate((np.arange(L) % 3 == 1, np.arange(L) % 2 == 0)):
+                if m1.all() or not m1.any():
+                    continue
+                for sn in (False, True):
+                    am = aa.Array1D(values=line[:L].copy(), mask=aa.Mask1D(mask=m1.copy(), pixel_scales=(0.7,)), store_native=sn)
+                    lay = aa.Layout1D(shape_1d=(L,), prescan=(0, 1), overscan=r)
+                    ok, ex = ctx.guarded("layout1d.extract_overscan", lay.extract_overscan_array_1d_from, array=am)
+                    if ok:
+                        got = native_of(ex)
+                        keep = ~m1[x0:x1]
+                        ctx.check(got.shape == parent.shape and np.array_equal(got[keep], parent[keep]), "layout1d.extract_overscan", L=L, region=r,
+                                  mask_1d=m1, stored_native=sn, expected_at_unmasked=parent[keep], got=got)
             # Layout1D: tuples become Region1D, the overscan extraction returns the labelled cells of the region
             for form in ("tuple", "Region1D"):
                 lay = aa.Layout1D(shape_1d=(L,), prescan=(0, 1), overscan=(r if form == "tuple" else aa.Region1D(region=r)))
